@@ -153,13 +153,24 @@ Proof. unfold fill_circle_helper. apply TailW_circle_loop. intros. apply TailW_f
 Lemma TailW_round_rect g x y w h r col : TailW g (round_rect g x y w h r col).
 Proof.
   unfold round_rect.
-  repeat (apply TailW_comp); first [apply TailW_hline | apply TailW_vline | apply TailW_circle_helper].
+  pose proof (TailW_hline g (x + r) y (w - 2 * r) col) as T1.
+  pose proof (TailW_hline g (x + r) (y + h - 1) (w - 2 * r) col) as T2.
+  pose proof (TailW_vline g x (y + r) (h - 2 * r) col) as T3.
+  pose proof (TailW_vline g (x + w - 1) (y + r) (h - 2 * r) col) as T4.
+  pose proof (TailW_circle_helper g (x + r) (y + r) r 1 col) as T5.
+  pose proof (TailW_circle_helper g (x + w - r - 1) (y + r) r 2 col) as T6.
+  pose proof (TailW_circle_helper g (x + w - r - 1) (y + h - r - 1) r 4 col) as T7.
+  pose proof (TailW_circle_helper g (x + r) (y + h - r - 1) r 8 col) as T8.
+  exact (TailW_comp g _ _ (TailW_comp g _ _ (TailW_comp g _ _ (TailW_comp g _ _ (TailW_comp g _ _ (TailW_comp g _ _ (TailW_comp g _ _ T1 T2) T3) T4) T5) T6) T7) T8).
 Qed.
 
 Lemma TailW_fill_round_rect g x y w h r col : TailW g (fill_round_rect g x y w h r col).
 Proof.
   unfold fill_round_rect.
-  repeat (apply TailW_comp); first [apply TailW_fill_rect | apply TailW_fill_circle_helper].
+  pose proof (TailW_fill_rect g (x + r) y (w - 2 * r) h col) as T1.
+  pose proof (TailW_fill_circle_helper g (x + w - r - 1) (y + r) r 1 (h - 2 * r - 1) col) as T2.
+  pose proof (TailW_fill_circle_helper g (x + r) (y + r) r 2 (h - 2 * r - 1) col) as T3.
+  exact (TailW_comp g _ _ (TailW_comp g _ _ T1 T2) T3).
 Qed.
 
 Lemma TailW_draw_bitmap g x y bm w h col inverted all : TailW g (draw_bitmap g x y bm w h col inverted all).
